@@ -1,4 +1,5 @@
 import Urandom.Model.ZigData
+import Urandom.Model.Reservoir
 import Urandom.Driver.Distr
 /- Driver for the floating-point streams: `fp`, `ufloat`, `expd`, `norm`, `lnorm`, `zig`. -/
 namespace Urandom.Driver
@@ -106,5 +107,17 @@ def zigRequest (kv : KV) : Option String := do
     | _ => none)
   let smp : Draw Nat := fun ws => (base ws).map fun (x, ws') => (narrow f x, ws')
   pure (showResult ws.length (showFs f) (repeatDraw smp n ws))
+
+def singleRequest (kv : KV) : Option String := do
+  let items ← kv.nats? "items"
+  let ws ← parseWords? kv
+  let n := items.length
+  let hint := (kv.get? "hint").getD "none"
+  let (lo, hi) : Nat × Option Nat := match hint with
+    | "slice" | "vec" | "exact" => (n, some n)
+    | "lower" => (n / 2, some (n + 3))
+    | "upper" | "filter" => (0, some n)
+    | _ => (0, none)
+  pure (showResult ws.length showOptNat (Reservoir.singleHinted lo hi items ws))
 
 end Urandom.Driver
